@@ -137,6 +137,98 @@ C03Env == /\ Check("no_residual_reference", Ev.residual = 0)
                    \A i \in 1..Len(nodes) : \A k \in 1..Len(nodes[i].refs) :
                       \E j \in 2..(l - 1) : T[j].ev = "ref" /\ T[j].name = nodes[i].refs[k])
 
+(* ------------------------------------------------------------------ C05: binds *)
+\* Source side: Ev.src.binds = <<  <<path, << <<name, value, kind>>, ... >> >>, ... >> for user rows, where kind is
+\*   "lit"  - the attribute value must equal `value` exactly
+\*   "conv" - yes/no spelling of a convertible attribute: must come out as true()/false()
+\*   "norm" - cell contains references: compared after both sides are normalised by the projection
+\*   "any"  - presence only
+Conv(v) == IF v \in {"yes", "Yes", "YES", "true", "True", "TRUE", "true()"} THEN "true()" ELSE "false()"
+TypeBind(t) ==
+  IF ~TypeKnown(t) THEN <<>> ELSE
+     (IF TypeTable[t].btype # "" THEN <<<<"type", TypeTable[t].btype, "lit">>>> ELSE <<>>)
+  \o (IF TypeTable[t].preload # "" THEN <<<<"jr:preload", TypeTable[t].preload, "lit">>>> ELSE <<>>)
+  \o (IF TypeTable[t].params # "" THEN <<<<"jr:preloadParams", TypeTable[t].params, "lit">>>> ELSE <<>>)
+  \o (IF TypeTable[t].ro # "" THEN <<<<"readonly", TypeTable[t].ro, "lit">>>> ELSE <<>>)
+  \o (IF TypeTable[t].cons # "" THEN <<<<"constraint", TypeTable[t].cons, "lit">>>> ELSE <<>>)
+SrcBind(p) == LET S == {i \in 1..Len(Ev.src.binds) : Ev.src.binds[i][1] = p}
+              IN IF S = {} THEN <<>> ELSE Ev.src.binds[CHOOSE i \in S : TRUE][2]
+Merge(a, b) == SelectSeq(a, LAMBDA x : \A j \in 1..Len(b) : b[j][1] # x[1]) \o b
+GenBind(n) ==
+  CASE n.gen = "count"     -> <<<<"type", "string", "lit">>, <<"readonly", "true()", "lit">>, <<"calculate", "", "any">>>>
+    [] n.gen = "other"     -> <<<<"type", "string", "lit">>, <<"relevant", "", "any">>>>
+    [] n.gen = "tl_label"  -> <<<<"type", "string", "lit">>, <<"readonly", "true()", "lit">>>>
+    [] n.gen = "tl_header" -> TypeBind(n.type)      \* a label-only copy of the first select: same bind type
+    [] OTHER               -> <<>>
+ExpBind(n) == IF n.gen \in {"", "note"}
+                THEN (IF IsSection(n) THEN SrcBind(n.p) ELSE Merge(TypeBind(n.type), SrcBind(n.p)))
+                ELSE GenBind(n)
+BindMatches(oa, ea) ==     \* oa: << <<name, value, normvalue>> >>, ea: << <<name, value, kind>> >>
+  /\ {oa[j][1] : j \in 1..Len(oa)} = {ea[j][1] : j \in 1..Len(ea)}
+  /\ \A k \in 1..Len(ea) : \E j \in 1..Len(oa) :
+        /\ oa[j][1] = ea[k][1]
+        /\ CASE ea[k][3] = "lit"  -> oa[j][2] = ea[k][2]
+             [] ea[k][3] = "conv" -> oa[j][2] = Conv(ea[k][2])
+             [] ea[k][3] = "norm" -> oa[j][3] = ea[k][2]
+             [] OTHER             -> TRUE
+C05Env ==
+  /\ Check("bind_per_row",
+           \A i \in 1..Len(nodes) :
+              nodes[i].gen # "meta" =>
+                 LET S == {j \in 1..Len(Obs.binds) : Obs.binds[j].p = nodes[i].p /\ Obs.binds[j].attr = ""}
+                 IN IF ExpBind(nodes[i]) = <<>> THEN S = {} ELSE Cardinality(S) = 1)
+  /\ Check("bind_attributes",
+           \A i \in 1..Len(nodes) :
+              (nodes[i].gen # "meta" /\ ExpBind(nodes[i]) # <<>>) =>
+                 \A j \in 1..Len(Obs.binds) :
+                    (Obs.binds[j].p = nodes[i].p /\ Obs.binds[j].attr = "") => BindMatches(Obs.binds[j].attrs, ExpBind(nodes[i])))
+  /\ Check("bind_only_for_nodes",
+           \A j \in 1..Len(Obs.binds) : \E i \in 1..Len(nodes) : nodes[i].p = Obs.binds[j].p)
+
+(* ------------------------------------------------------------------ C10: defaults and triggered calculations *)
+\* Ev.src.defaults = << <<path, class, text>> >>, class in {"static","dynamic","either"};
+\* Ev.src.triggers = << <<target path, trigger node path, geo?, has calculation?, normalised calculation>> >>;  Obs.setv = every setvalue/setgeopoint observed
+LoadEvents == {"odk-instance-first-load", "odk-new-repeat"}
+IsLoad(a) == ToSet(a.events) \subseteq LoadEvents /\ a.events # <<>>
+IsChanged(a) == ToSet(a.events) = {"xforms-value-changed"}
+Copies(p) == {i \in 1..Len(Obs.inst) : Obs.inst[i].p = p}
+LoadActs(p) == {j \in 1..Len(Obs.setv) : Obs.setv[j].p = p /\ IsLoad(Obs.setv[j])}
+StaticOK(d) == (\A i \in Copies(d[1]) : Obs.inst[i].text = d[3]) /\ LoadActs(d[1]) = {}
+Placed(j, p) == LET r == InnermostRepeat(nodes, p)
+                IN IF r = <<>> THEN Obs.setv[j].where = "model" /\ ToSet(Obs.setv[j].events) = {"odk-instance-first-load"}
+                   ELSE Obs.setv[j].where = "body" /\ Obs.setv[j].rep = r /\ ToSet(Obs.setv[j].events) = LoadEvents
+DynamicOK(d) == /\ \A i \in Copies(d[1]) : Obs.inst[i].text = ""
+                /\ Cardinality(LoadActs(d[1])) = 1
+                /\ \A j \in LoadActs(d[1]) : Placed(j, d[1]) /\ Obs.setv[j].tag = "setvalue" /\ Obs.setv[j].hasvalue
+DefaultPaths == {Ev.src.defaults[i][1] : i \in 1..Len(Ev.src.defaults)}
+C10Env ==
+  /\ Check("default_static", \A i \in 1..Len(Ev.src.defaults) : Ev.src.defaults[i][2] = "static" => StaticOK(Ev.src.defaults[i]))
+  /\ Check("default_dynamic", \A i \in 1..Len(Ev.src.defaults) : Ev.src.defaults[i][2] = "dynamic" => DynamicOK(Ev.src.defaults[i]))
+  /\ Check("default_either", \A i \in 1..Len(Ev.src.defaults) :
+              Ev.src.defaults[i][2] = "either" => (StaticOK(Ev.src.defaults[i]) \/ DynamicOK(Ev.src.defaults[i])))
+  /\ Check("no_default_no_action",
+           \A j \in 1..Len(Obs.setv) : (IsLoad(Obs.setv[j]) /\ Obs.setv[j].tag = "setvalue") => Obs.setv[j].p \in DefaultPaths)
+  /\ Check("no_default_empty_node",
+           \A i \in 1..Len(nodes) : (nodes[i].kind = "q" /\ nodes[i].gen \in {"", "note"} /\ nodes[i].p \notin DefaultPaths) =>
+              \A k \in Copies(nodes[i].p) : Obs.inst[k].text = "")
+  /\ Check("trigger_action",
+           \A i \in 1..Len(Ev.src.triggers) :
+              LET tg == Ev.src.triggers[i]
+                  A == {j \in 1..Len(Obs.setv) : Obs.setv[j].p = tg[1] /\ IsChanged(Obs.setv[j])}
+              IN /\ Cardinality(A) = 1
+                 /\ \A j \in A : /\ Obs.setv[j].where = "body" /\ Obs.setv[j].parent = tg[2]
+                                   /\ Obs.setv[j].tag = (IF tg[3] THEN "odk:setgeopoint" ELSE "setvalue")
+                                   \* the action carries this row's own calculation, or no value at all
+                                   /\ Obs.setv[j].hasvalue = tg[4]
+                                   /\ (tg[4] => Obs.setv[j].value = tg[5]))
+  /\ Check("trigger_not_also_calculate",
+           \A i \in 1..Len(Ev.src.triggers) :
+              \A j \in 1..Len(Obs.binds) : Obs.binds[j].p = Ev.src.triggers[i][1] =>
+                 \A k \in 1..Len(Obs.binds[j].attrs) : Obs.binds[j].attrs[k][1] # "calculate")
+  /\ Check("only_declared_triggers",
+           \A j \in 1..Len(Obs.setv) : IsChanged(Obs.setv[j]) =>
+              \E i \in 1..Len(Ev.src.triggers) : Ev.src.triggers[i][1] = Obs.setv[j].p)
+
 TEnd == /\ l <= Len(T) /\ Ev.ev = "end"
         /\ Check("no_crash", Ev.status \in {"ok", "pyxform_error"})
         /\ Check("predicted_rejection", outcome.status = "error" => Ev.status = "pyxform_error")
@@ -144,7 +236,9 @@ TEnd == /\ l <= Len(T) /\ Ev.ev = "end"
         /\ (Ev.status = "ok" =>
               /\ (Prop = "C04" => C04Env)
               /\ (Prop = "C02" => C02Env)
-              /\ (Prop = "C03" => C03Env))
+              /\ (Prop = "C03" => C03Env)
+              /\ (Prop = "C05" => C05Env)
+              /\ (Prop = "C10" => C10Env))
         /\ l' = l + 1 /\ UNCHANGED <<rpvars, tid>>
 
 TNext == TRow \/ TRowsDone \/ TRef \/ TEnd
